@@ -253,6 +253,9 @@ pub fn exec_probe(c: &ProbeCase) -> Outcome {
     if c.calls.iter().any(|k| matches!(k, Call::Header { size, .. } if *size > (1 << 20) && *size < (1 << 30))) {
         o.labels.push("body-above-1MiB-announced".into());
     }
+    if c.calls.iter().any(|k| matches!(k, Call::Header { size, .. } if *size > (16 << 20) && *size < (1 << 30))) {
+        o.labels.push("body-above-16MiB-announced".into());
+    }
     if let Some(s) = violation_state {
         o.labels.push(format!("violation-in-{}", s));
     }
@@ -299,13 +302,29 @@ pub fn valid_message() -> BoxedStrategy<Vec<Call>> {
             10 => 40u32..3000,
             5 => 3000u32..20000,
             1 => prop::sample::select(vec![(1u32 << 20) - 1, 1 << 20, (1 << 20) + 1, (1 << 20) + 4097, 2 << 20, (3 << 20) + 17]),
-        ],
+        ]
+        .prop_flat_map(|n| {
+            // one message in a few thousand is really big: powers of two (and +1) up to 256 MiB
+            prop_oneof![
+                3000 => Just(n),
+                1 => prop::sample::select(vec![(1u32 << 24) + 1, 1 << 26, (1 << 27) + 1, (1 << 28) + 1]),
+            ]
+        }),
         vec(any::<u16>(), 0..6),
         any::<u8>(),
     )
         .prop_map(|(start, props, total, hints, salt)| {
             let mut v = vec![start, Call::Header { size: total as u64, props }];
-            let sizes: Vec<usize> = if total > 100_000 {
+            let sizes: Vec<usize> = if total > (8 << 20) {
+                // very large bodies: chunks of 1-16 MiB
+                let unit = 1usize << 20;
+                let mut v: Vec<usize> = gen::chunk_sizes(total as usize / unit, &hints, 16).into_iter().map(|n| n * unit).collect();
+                let rest = total as usize - v.iter().sum::<usize>();
+                if rest > 0 {
+                    v.push(rest);
+                }
+                v
+            } else if total > 100_000 {
                 // large bodies: chunks of 1000-131000 bytes (keeps the call list short)
                 let mut v: Vec<usize> = gen::chunk_sizes(total as usize / 1000, &hints, 131).into_iter().map(|n| n * 1000).collect();
                 let rest = total as usize - v.iter().sum::<usize>();
